@@ -27,7 +27,11 @@ type wlog struct {
 }
 
 // faultyWriter accepts k bytes, then fails stickily (two delivery modes) and logs every Write.
+// the error VALUE a failing destination returns is its own business (a pipe closed with io.EOF, a short write, ...)
+var faultErrs = []error{errInjected, io.EOF, io.ErrShortWrite, io.ErrUnexpectedEOF, io.ErrClosedPipe}
+
 type faultyWriter struct {
+	errv   error
 	k      int
 	mode   string
 	acc    bytes.Buffer
@@ -35,10 +39,17 @@ type faultyWriter struct {
 	log    []wlog
 }
 
+func (w *faultyWriter) err() error {
+	if w.errv != nil {
+		return w.errv
+	}
+	return errInjected
+}
+
 func (w *faultyWriter) Write(p []byte) (int, error) {
 	if w.failed {
 		w.log = append(w.log, wlog{len(p), 0, true})
-		return 0, errInjected
+		return 0, w.err()
 	}
 	if w.acc.Len()+len(p) <= w.k {
 		w.acc.Write(p)
@@ -52,7 +63,7 @@ func (w *faultyWriter) Write(p []byte) (int, error) {
 		w.acc.Write(p[:n])
 	}
 	w.log = append(w.log, wlog{len(p), n, true})
-	return n, errInjected
+	return n, w.err()
 }
 
 // faultyRF additionally implements io.ReaderFrom (by reading in pieces and calling Write).
@@ -125,7 +136,11 @@ func wfSerializers(r *rand.Rand) []serializer {
 		b    *bundle.Bundle
 	}{{"bundle b2", mkBundle(bversion.VersionB2, false, false)}, {"bundle b1 variants manifest", mkBundle(bversion.VersionB1, false, true)}, {"bundle b2 signatures", mkBundle(bversion.VersionB2, true, false)},
 		// the optional parts absent (what gen-bundle writes without -primaryURL): failure paths must not rely on them
-		{"bundle b2 bare", func() *bundle.Bundle { b := mkBundle(bversion.VersionB2, false, false); b.PrimaryURL, b.ManifestURL, b.Signatures = nil, nil, nil; return b }()},
+		{"bundle b2 bare", func() *bundle.Bundle {
+			b := mkBundle(bversion.VersionB2, false, false)
+			b.PrimaryURL, b.ManifestURL, b.Signatures = nil, nil, nil
+			return b
+		}()},
 		{"bundle b2 empty", &bundle.Bundle{Version: bversion.VersionB2}}} {
 		b := bb.b
 		ss = append(ss, serializer{bb.name, func(w io.Writer) (int64, bool, error) { n, err := b.WriteTo(w); return n, true, err }})
@@ -209,42 +224,50 @@ func wfRun(args []string) error {
 			if len(O) > 8000 && k > 16 && k < len(O)-16 && k%(len(O)/24) != 0 && !(thorough && k%97 == 0) {
 				continue // large outputs: both ends and evenly spaced positions
 			}
+			// which error value the destination returns: one (rotating) in the middle, every kind near both ends of the output
+			errIdx := []int{(k + len(O)) % len(faultErrs)}
+			if k <= 12 || k >= len(O)-12 {
+				errIdx = []int{0, 1, 2, 3, 4}
+			}
 			for _, mode := range []string{"errAtCall", "shortWrite"} {
-				for _, dest := range []string{"norf", "rf"} {
-					if dest == "rf" && !(len(s.name) > 6 && s.name[:6] == "bundle") && k%4 != 0 {
-						continue // io.ReaderFrom only matters where CountingWriter may take that path
-					}
-					id++
-					var fw *faultyWriter
-					var w io.Writer
-					if dest == "rf" {
-						rf := &faultyRF{faultyWriter{k: k, mode: mode}}
-						fw, w = &rf.faultyWriter, rf
-					} else {
-						fw = &faultyWriter{k: k, mode: mode}
-						w = fw
-					}
-					ev := map[string]interface{}{"case": fmt.Sprintf("w%d", id), "kind": "run", "ser": s.name, "k": k, "mode": mode, "dest": dest, "O": ints(O), "panic": false}
-					var count int64 = -1
-					var rerr error
-					func() {
-						defer func() {
-							if rec := recover(); rec != nil {
-								ev["panic"] = true
-								rerr = errors.New("panic")
+				for _, destE := range []string{"norf", "rf"} {
+					for _, ei := range errIdx {
+						dest := destE
+						if dest == "rf" && !(len(s.name) > 6 && s.name[:6] == "bundle") && k%4 != 0 {
+							continue // io.ReaderFrom only matters where CountingWriter may take that path
+						}
+						id++
+						var fw *faultyWriter
+						var w io.Writer
+						if dest == "rf" {
+							rf := &faultyRF{faultyWriter{k: k, mode: mode, errv: faultErrs[ei]}}
+							fw, w = &rf.faultyWriter, rf
+						} else {
+							fw = &faultyWriter{k: k, mode: mode, errv: faultErrs[ei]}
+							w = fw
+						}
+						ev := map[string]interface{}{"case": fmt.Sprintf("w%d", id), "kind": "run", "ser": s.name, "k": k, "mode": mode, "dest": dest, "O": ints(O), "panic": false}
+						var count int64 = -1
+						var rerr error
+						func() {
+							defer func() {
+								if rec := recover(); rec != nil {
+									ev["panic"] = true
+									rerr = errors.New("panic")
+								}
+							}()
+							c, has, err := s.run(w)
+							rerr = err
+							if has {
+								count = c
 							}
 						}()
-						c, has, err := s.run(w)
-						rerr = err
-						if has {
-							count = c
+						if fw.log == nil {
+							fw.log = []wlog{}
 						}
-					}()
-					if fw.log == nil {
-						fw.log = []wlog{}
+						ev["writes"], ev["accepted"], ev["reterr"], ev["count"] = fw.log, ints(fw.acc.Bytes()), rerr != nil, count
+						emit(ev)
 					}
-					ev["writes"], ev["accepted"], ev["reterr"], ev["count"] = fw.log, ints(fw.acc.Bytes()), rerr != nil, count
-					emit(ev)
 				}
 			}
 		}
